@@ -172,8 +172,10 @@ func hostileRequest(s *kernel.Sim, w *World, hostile *Actor, idn int) (raw strin
 		case "vipnode_client":
 			arg = pool.ClientRequest{NumHosts: []int{-1, 1 << 31, 1<<63 - 1, 1 << 40}[s.Choose("hnum", 4)], Kind: "geth"}
 		case "vipnode_update":
-			pi := []ethnode.PeerInfo{{ID: ""}, {ID: "x", Enode: "enode://"}, {Enode: strings.Repeat("q", 137)}, {ID: hostile.ID}, {ID: w.Actors[0].ID}}
-			arg = pool.UpdateRequest{PeerInfo: pi[:1+s.Choose("hpeers", len(pi))], BlockNumber: 1<<64 - 1}
+			// peer descriptions with enode strings of every length around the id boundary (8+128)
+			pi := []ethnode.PeerInfo{{ID: ""}, {ID: "x", Enode: "enode://"}, {Enode: strings.Repeat("q", 120+s.Choose("henode", 30))}, {ID: hostile.ID}, {ID: w.Actors[0].ID},
+				{ID: "y", Enode: "enode://" + strings.Repeat("a", s.Choose("henode2", 140))}}
+			arg = pool.UpdateRequest{PeerInfo: pi[s.Choose("hpeers0", 3):], BlockNumber: 1<<64 - 1}
 		case "vipnode_host":
 			arg = pool.HostRequest{Kind: "geth", NodeURI: []string{"::::", "enode://@", "enode://" + hostile.ID + "@[::1", "http://x", strings.Repeat("a", 3000)}[s.Choose("huri", 5)]}
 		default:
@@ -307,8 +309,10 @@ func runC15Pool(s *kernel.Sim) {
 	hostileDone := false
 	s.Go("evil", func() {
 		defer func() { hostileDone = true }()
-		if hostileHost {
-			// register properly as a host first, so that the pool sends it whitelist calls
+		{
+			// register properly first (as a host: the pool then sends it whitelist calls; else as a client),
+			// so that its signed hostile keep-alives get past the "unregistered node" check
+			hostile.IsHost = hostileHost
 			args, _ := json.Marshal(hostile.Signed("vipnode_connect", time.Now().UnixNano(), hostile.ConnectReq("", "")))
 			rawA.WriteRaw([]byte(fmt.Sprintf(`{"jsonrpc":"2.0","id":"reg","method":"vipnode_connect","params":%s}`, args)))
 		}
